@@ -119,6 +119,10 @@ def run(ctx):
     from ..rules import fieldfit
     nff, nffd = fieldfit.check(ctx, P.funcs_in("src/compression/snappy.c", "src/compression/lz4.c"))
     ctx.floor("C09 packed tag bytes decided", nffd, 5)
+    ctx.clause("C09.9 the Snappy length preamble is the LEB128 of the input length, written and read (values on either side of every 7-bit boundary)")
+    from ..rules import varint
+    nvw, nvr = varint.check(ctx, files=(SN,))
+    ctx.floor("C09 Snappy varint writer and reader", nvw + nvr, 2)
     ctx.clause("C09.8 LZ4 length extensions: the encoder emits 255-bytes exactly while 255 or more remain, the decoder reads on exactly after a 255")
     from ..rules import lenext
     nle, nld = lenext.check(ctx, [LZ])
